@@ -321,7 +321,7 @@ class Interp:
             return UNDEF
         if op in ('bitcast',):
             if isinstance(st, Ptr) and isinstance(dt, Ptr): return x
-            if isinstance(x, z3.ExprRef): return x          # opaque symbolic bit pattern (never computed on)
+            if isinstance(x, z3.ExprRef): return z3.fpToIEEEBV(x) if z3.is_fp(x) else x          # symbolic bit pattern
             if isinstance(st, Int) and isinstance(dt, Flt):
                 return struct.unpack('<f' if dt.k == 'float' else '<d', x.to_bytes(4 if dt.k == 'float' else 8, 'little'))[0]
             if isinstance(st, Flt) and isinstance(dt, Int):
@@ -343,7 +343,19 @@ class Interp:
             if isinstance(x, int): return (x - (1 << st.n) if x >> (st.n - 1) else x) & ((1 << dt.n) - 1)
             if z3.is_bool(x): return z3.If(x, z3.BitVecVal(-1, dt.n), z3.BitVecVal(0, dt.n))
             return z3.SignExt(dt.n - st.n, x)
-        if isinstance(x, (z3.ExprRef,)): raise Unsupported('symbolic fp cast')
+        if isinstance(x, (z3.ExprRef,)):
+            # symbolic conversions (IEEE, exact SMT semantics): integer <-> float round trips of symbolic payload values. FP values live as z3 FP terms in
+            # registers and as their IEEE bit-vector in memory; arithmetic on them stays outside the interpreter.
+            fs = lambda t: z3.Float32() if t.k == 'float' else z3.Float64()
+            if op in ('sitofp', 'uitofp'):
+                if z3.is_bool(x): x = z3.If(x, z3.BitVecVal(1, st.n), z3.BitVecVal(0, st.n))
+                return z3.fpSignedToFP(z3.RNE(), x, fs(dt)) if op == 'sitofp' else z3.fpUnsignedToFP(z3.RNE(), x, fs(dt))
+            if op in ('fptosi', 'fptoui', 'fpext', 'fptrunc'):
+                if not z3.is_fp(x): x = z3.fpBVToFP(x, fs(st))
+                if op == 'fptosi': return z3.fpToSBV(z3.RTZ(), x, z3.BitVecSort(dt.n))
+                if op == 'fptoui': return z3.fpToUBV(z3.RTZ(), x, z3.BitVecSort(dt.n))
+                return z3.fpFPToFP(z3.RNE(), x, fs(dt))
+            raise Unsupported('symbolic fp cast')
         if op == 'fpext': return float(x)
         if op == 'fptrunc': return f32(x)
         if op == 'sitofp':
@@ -582,6 +594,7 @@ class Interp:
                         if isinstance(t, (Arr, Lit)): s.store_agg(a, t, v)
                         else:
                             if z3.is_bool(v) if isinstance(v, z3.ExprRef) else False: v = z3.If(v, z3.BitVecVal(1, 8), z3.BitVecVal(0, 8))
+                            elif isinstance(v, z3.ExprRef) and z3.is_fp(v): v = z3.fpToIEEEBV(v)
                             mem.store(a, s.L.size(t), v)
                     elif op == 'gep':
                         idx = it[4]
